@@ -493,6 +493,94 @@ func runC17(c *Ctx) {
 			}
 		}
 	}
+	if !okDef && okErr {
+		// the dispatch as a chain of comma-ok assertions / boolean expressions: from the side of the nil test on
+		// which the error is non-nil, the condition under which the next wait is reached without a report may hold
+		// only for the unchanged marker or a not-exist syscall error
+		isReportBlock := map[*ssa.BasicBlock]bool{}
+		var waits []*ssa.BasicBlock
+		for _, b := range dfn.Blocks {
+			for _, i := range b.Instrs {
+				if isReportCall(i) {
+					isReportBlock[b] = true
+				}
+				if dNextWait(i) {
+					waits = append(waits, b)
+				}
+			}
+		}
+		pb := &predBuilder{name: func(v ssa.Value) string {
+			if e, ok := v.(*ssa.Extract); ok && e.Index == 1 {
+				if ta, ok := e.Tuple.(*ssa.TypeAssert); ok && ta.X == dErr {
+					ts := ta.AssertedType.String()
+					switch {
+					case strings.HasSuffix(ts, "unchangedCSumErr"):
+						return "unch"
+					case strings.HasSuffix(ts, "os.SyscallError"):
+						return "sys"
+					}
+				}
+			}
+			if call, ok := v.(*ssa.Call); ok && calleeFullName(call) == "errors.Is" && len(call.Call.Args) == 2 {
+				if strings.Contains(canon(call.Call.Args[1]), "ErrNotExist") {
+					return "notexist"
+				}
+			}
+			return ""
+		}}
+		for _, b := range dfn.Blocks {
+			iff, ok := b.Instrs[len(b.Instrs)-1].(*ssa.If)
+			if !ok {
+				continue
+			}
+			x, nilWhenTrue, isNilCheck := nilCheckOf(iff.Cond)
+			if !isNilCheck || x != dErr {
+				continue
+			}
+			start := b.Succs[1]
+			if !nilWhenTrue {
+				start = b.Succs[0]
+			}
+			var skip formula = fConst{false}
+			reachesWait := false
+			addPath := func(f formula) {
+				if cst, isConst := f.(fConst); !isConst || cst.V {
+					reachesWait = true
+				}
+				skip = mkOr(skip, f)
+			}
+			for _, wb := range waits {
+				if start.Dominates(wb) {
+					addPath(pb.pathCondAvoid(start, wb, isReportBlock))
+				}
+			}
+			// the wait at the head of the enclosing loop: through the back edges
+			for _, lp := range dfn.Blocks {
+				for _, h := range lp.Succs {
+					if h.Dominates(lp) && h.Dominates(start) && (lp == start || start.Dominates(lp)) && !isReportBlock[lp] {
+						addPath(mkAnd(pb.pathCondAvoid(start, lp, isReportBlock), edgeFormula(pb, lp, h)))
+					}
+				}
+			}
+			fb, fi := map[string]bool{}, map[string]bool{}
+			atomsOf(skip, fb, fi)
+			known := len(fi) == 0
+			for a := range fb {
+				if a != "unch" && a != "sys" && a != "notexist" {
+					known = false
+				}
+			}
+			if !known || !reachesWait {
+				continue
+			}
+			_, counter := forAll(skip, nil, func(e env, fv bool) bool {
+				return !fv || e.B["unch"] || (e.B["sys"] && e.B["notexist"])
+			})
+			if counter == "" {
+				okDef = true
+			}
+		}
+	}
 	c.check(okDef, "dispatch-total", name+"#other-errors", reread.Pos(), "every other error reaches ReportError before the loop waits again", "an unclassified read error can be dropped without ReportError")
 
 	// ---- refusal-reported: ReportNewValue may fail (a wrapping WatchArgs that cannot reverse-translate the value returns
